@@ -25,6 +25,8 @@ import (
 	"encoding/json"
 	"flag"
 	"fmt"
+	"go/parser"
+	"go/token"
 	"os"
 	"os/exec"
 	"path/filepath"
@@ -50,6 +52,7 @@ import (
 type FileRec struct {
 	SHA   string `json:"sha"`
 	Mtime int64  `json:"mtime"`
+	Pkg   string `json:"pkg,omitempty"` // package clause of a Go file ("!" + error if it does not parse)
 }
 
 type Snapshot map[string]FileRec
@@ -126,7 +129,15 @@ func snapshot(dir string) Snapshot {
 		if err != nil {
 			return nil
 		}
-		s[filepath.ToSlash(rel)] = FileRec{SHA: sha(b), Mtime: fi.ModTime().UnixNano()}
+		rec := FileRec{SHA: sha(b), Mtime: fi.ModTime().UnixNano()}
+		if strings.HasSuffix(rel, ".go") {
+			if f, err := parser.ParseFile(token.NewFileSet(), p, b, parser.PackageClauseOnly); err != nil {
+				rec.Pkg = "!" + err.Error()
+			} else {
+				rec.Pkg = f.Name.Name
+			}
+		}
+		s[filepath.ToSlash(rel)] = rec
 		return nil
 	})
 	return s
@@ -419,10 +430,11 @@ var histories = map[string][]string{
 	"example_gen":                    {"example", "gen"},
 	"gen_stray_gen":                  {"gen", "stray", "gen"},
 	"gen_example_delete_example_gen": {"gen", "example", "delete", "example", "gen"},
+	"example_delete_example":         {"example", "delete", "example"},
 }
 
 func histNames(tier string) []string {
-	hs := []string{"gen_gen", "gen_example_edit_example", "example_gen", "gen_stray_gen"}
+	hs := []string{"gen_gen", "gen_example_edit_example", "example_gen", "gen_stray_gen", "example_delete_example"}
 	if tier == "thorough" {
 		hs = append(hs, "gen_example_delete_example_gen")
 	}
@@ -457,7 +469,25 @@ func expand(kind string, dir string, cur Snapshot) []Step {
 			return nil
 		}
 		if kind == "delete" {
-			return []Step{{Kind: "delete", Path: cands[0]}}
+			// SOME but not all example files disappear: the last service implementation
+			// file of the output root (the others stay) and the first file below cmd/
+			st := []Step{}
+			var rootFiles []string
+			for _, p := range cands {
+				if !strings.Contains(p, "/") {
+					rootFiles = append(rootFiles, p)
+				}
+			}
+			if len(rootFiles) > 0 {
+				st = append(st, Step{Kind: "delete", Path: rootFiles[len(rootFiles)-1]})
+			}
+			if len(rootFiles) > 2 {
+				st = append(st, Step{Kind: "delete", Path: rootFiles[len(rootFiles)/2]})
+			}
+			if cands[0] != "" && strings.Contains(cands[0], "/") {
+				st = append(st, Step{Kind: "delete", Path: cands[0]})
+			}
+			return st
 		}
 		b, _ := os.ReadFile(filepath.Join(dir, cands[0]))
 		return []Step{{Kind: "write", Path: cands[0], Content: string(b) + "\n// edited by the user\n"}}
@@ -482,6 +512,12 @@ func expand(kind string, dir string, cur Snapshot) []Step {
 			st = append(st, Step{Kind: "write", Path: d + "/zz_stray.txt", Content: "stray in " + d + "\n"})
 		}
 		st = append(st, Step{Kind: "write", Path: "gen/zz_new_dir/deep/zz_stray.go", Content: "package deep\n"})
+		// cleanup must remove EVERY sub-directory of gen/, whatever it is called
+		for _, n := range []string{"goa1234567", "goa", "goazz", "tmp", "design", ".hidden", "gen", "cmd", "X"} {
+			if !dirs["gen/"+n] {
+				st = append(st, Step{Kind: "write", Path: "gen/" + n + "/zz_stray.txt", Content: "stray directory " + n + "\n"})
+			}
+		}
 		if len(genFiles) > 0 {
 			f := genFiles[0]
 			b, _ := os.ReadFile(filepath.Join(dir, f))
@@ -646,6 +682,34 @@ func oracleHistory(d *dg.Design, hr *HistRun, fresh map[string]Snapshot) {
 				}
 			}
 			lastGen = cur
+		}
+		// every directory holds one package (the tree must still build)
+		if st.Kind == "gen" || st.Kind == "example" {
+			pk := map[string]map[string]string{}
+			for p, r := range cur {
+				if r.Pkg == "" || strings.Contains(p, "zz_") {
+					continue
+				}
+				d := filepath.ToSlash(filepath.Dir(p))
+				if pk[d] == nil {
+					pk[d] = map[string]string{}
+				}
+				pk[d][strings.TrimSuffix(r.Pkg, "_test")] = p
+			}
+			for _, d := range vh.SortedKeys(pk) {
+				if len(pk[d]) > 1 {
+					var parts []string
+					for _, n := range vh.SortedKeys(pk[d]) {
+						parts = append(parts, fmt.Sprintf("package %s (%s)", n, pk[d][n]))
+					}
+					fail("package-clause-mismatch-in-directory", fmt.Sprintf("after step %d of %v directory %s holds files of different packages: %s", i+1, stepNames(hr), d, strings.Join(parts, ", ")), in)
+				}
+				for n, p := range pk[d] {
+					if strings.HasPrefix(n, "!") {
+						fail("generated-file-does-not-parse", p+": "+n[1:], in)
+					}
+				}
+			}
 		}
 		for p := range cur {
 			if strings.HasPrefix(p, "gen/temp.") || (strings.HasPrefix(p, "goa") && strings.Contains(p, "/")) {
@@ -848,7 +912,7 @@ func fixedDesigns() []*dg.Design {
 	t3, t4, t5 := dg.Ref("ErrT3"), dg.Ref("ErrT4"), dg.Ref("ErrT5")
 	errs3 := []dg.ErrorDef{{Name: "c_z", T: &t3}, {Name: "c_a", T: &t5}, {Name: "c_m", T: &t4}, {Name: "c_plain"}}
 	resp3 := []dg.ErrResponse{{Name: "c_z", R: dg.Response{Status: 409}}, {Name: "c_a", R: dg.Response{Status: 409}}, {Name: "c_m", R: dg.Response{Status: 409}}, {Name: "c_plain", R: dg.Response{Status: 409}}}
-	d3 := &dg.Design{Name: "plain", BasePath: "/v1",
+	d3 := &dg.Design{Name: "calc", BasePath: "/v1", // API name == a service name (the canonical goa layout): example package becomes calcapi
 		Types: append(errTypes, []*dg.UserType{
 			{Name: "Obj0", Base: dg.Obj(dg.Req("id", dg.Prim("UInt64")), dg.F("when", dg.Prim("String")).With(dg.Validation{Format: "date-time"}),
 				dg.F("inner", dg.Obj(dg.F("a", dg.Prim("Boolean")), dg.F("b", dg.Prim("Bytes")))), dg.F("child", dg.Ref("Obj0")))},
@@ -863,8 +927,50 @@ func fixedDesigns() []*dg.Design {
 				HTTP: &dg.HTTPMap{Routes: []dg.Route{{Verb: "POST", Path: "/echo"}}, Errors: resp6,
 					Responses: []dg.Response{{Status: 200, Headers: []dg.MapEntry{{Attr: "when", Wire: "X-When"}}}}}},
 			{Name: "nothing", HTTP: &dg.HTTPMap{Routes: []dg.Route{{Verb: "DELETE", Path: "/nothing"}}}},
+		}}, {Name: "history", Methods: []*dg.Method{
+			{Name: "list", Result: &dg.Attr{T: dg.ArrayOf(dg.A(dg.Ref("Obj0")))}, HTTP: &dg.HTTPMap{Routes: []dg.Route{{Verb: "GET", Path: "/history"}}}},
+		}}, {Name: "zlast", Methods: []*dg.Method{
+			{Name: "ping", Result: &dg.Attr{T: dg.Prim("String")}, HTTP: &dg.HTTPMap{Routes: []dg.Route{{Verb: "GET", Path: "/ping"}}}},
 		}}}}
-	return []*dg.Design{d1, d2, d3}
+
+	// names equal to or prefixed by names the tool itself uses (temporary directory prefix
+	// "goa", gen, http, grpc, cli, cmd, design, example, tmp), single letters, snake and
+	// camel variants: every directory below gen/ and every example path is computed from them
+	var hs []*dg.Service
+	for i, n := range hostileNames {
+		hs = append(hs, &dg.Service{Name: n, Methods: []*dg.Method{{Name: "m", Result: &dg.Attr{T: dg.Prim("String")},
+			HTTP: &dg.HTTPMap{Routes: []dg.Route{{Verb: "GET", Path: fmt.Sprintf("/h%d", i)}}}}}})
+	}
+	d4 := &dg.Design{Name: "goa", Types: []*dg.UserType{{Name: "Goa", Base: dg.Obj(dg.F("gen", dg.Prim("String")))}}, Services: hs}
+	// order matters for the CLI: even positions run in the working directory (where the
+	// generators' own os.Stat shortcuts look), odd positions with -o out
+	return []*dg.Design{d3, d2, d4, d1}
+}
+
+var hostileNames = []string{"goals", "goa_admin", "goa", "gen", "http", "grpc", "cli", "cmd", "tmp", "design", "example", "x", "fooBar", "foo_bar2", "Public"}
+
+// hostileRename gives the services of a random design names from the hostile pool and,
+// every other time, the API the name of its first service.
+func hostileRename(d *dg.Design, r *vh.RNG) {
+	used := map[string]bool{}
+	for _, s := range d.Services {
+		n := vh.Pick(r, hostileNames)
+		for used[n] {
+			n += "2"
+		}
+		used[n] = true
+		s.Name = n
+		if s.BasePath != "" {
+			s.BasePath = "/" + n
+		}
+		for fi := range s.Files {
+			s.Files[fi].Path = "/static/" + n + "/file.json"
+		}
+	}
+	if r.Bool() && len(d.Services) > 0 {
+		d.Name = d.Services[0].Name
+	}
+	d.Features = append(d.Features, "hostile_names")
 }
 
 // metaRich loads every attribute of every object user type with several struct:field:*
@@ -1138,6 +1244,9 @@ func main() {
 			if *search || i%4 == 3 {
 				d = metaRich(d)
 			}
+			if i%3 == 1 {
+				hostileRename(d, rng)
+			}
 			designs = append(designs, d)
 		}
 	}
@@ -1363,7 +1472,7 @@ func main() {
 	if err := os.WriteFile(filepath.Join(*out, "cases_fs.txt"), []byte(strings.Join(cases, "\n")+"\n"), 0o644); err != nil {
 		panic(err)
 	}
-	finish(*out, evaluations, len(distinct), fmt.Sprintf("tier A: %d fixed feature designs (metadata with several struct:field:*/struct:tag:* keys per attribute, recursive result types with views and collections, the four security kinds, two services, file server, six errors of six different types on one status code plus four on another, Extend, defaults, validations; each generated 10 (quick) / 30 (thorough, search) more times, gen only) then designgen.Random designs (every 4th loaded with metadata), each evaluated through the real DSL and generated (gen + example) %d times in-process into fresh directories; CLI: the first %d generated designs printed as design packages, histories %v, %d fresh-process runs per history on one output directory each; metadata probe: a design with API/service/method-level openapi:tag:*/extension/operationId metadata, two response cookies and file servers, OpenAPI files rendered in memory 60 (600 thorough) times from fresh evaluations; witness: 120 in-memory renderings of the OpenAPI files of the summary-alias design; evaluations = generator runs (tier A) + executed history steps (CLI) + witness renderings; distinct = distinct design descriptions per stream",
+	finish(*out, evaluations, len(distinct), fmt.Sprintf("tier A: %d fixed feature designs (metadata with several struct:field:*/struct:tag:* keys per attribute, recursive result types with views and collections, the four security kinds, two services, file server, six errors of six different types on one status code plus four on another, Extend, defaults, validations; each generated 10 (quick) / 30 (thorough, search) more times, gen only) then designgen.Random designs (every 4th loaded with metadata), each evaluated through the real DSL and generated (gen + example) %d times in-process into fresh directories; CLI: the first %d generated designs printed as design packages, histories %v (delete = some but not all example files; stray = a file in every directory below gen/ plus new directories named goa*, tmp, design, gen, cmd, .hidden), %d fresh-process runs per history on one output directory each, service/API names from a hostile-but-valid pool (goals, goa_admin, goa, gen, http, grpc, cli, cmd, tmp, design, example, x, fooBar, ...), API name == service name in the calc design; metadata probe: a design with API/service/method-level openapi:tag:*/extension/operationId metadata, two response cookies and file servers, OpenAPI files rendered in memory 60 (600 thorough) times from fresh evaluations; witness: 120 in-memory renderings of the OpenAPI files of the summary-alias design; evaluations = generator runs (tier A) + executed history steps (CLI) + witness renderings; distinct = distinct design descriptions per stream",
 		len(fixedDesigns()), repsA, nCLI, hs, procs), nil)
 }
 
